@@ -403,6 +403,10 @@ func TestC14_Trees(t *testing.T) {
 			}
 			tc.Files["layouts/l"] = "<l>@reserve(\"main\")</l>"
 			tc.Files["page"] = page + "@insert(\"main\")m@end"
+			if rapid.IntRange(0, 2).Draw(rt, "layoutWithoutReserves") == 0 {
+				// the used file declares no reserve at all: every insert of the page is a fault
+				tc.Files["layouts/l"] = "<l>static</l>"
+			}
 		case 1:
 			tc.Files["comp"] = "<c>@slot(\"a\")@slot(\"b\")@slot</c>"
 			slots := rapid.Permutation([]string{"@slot(\"a\")1@end", "@slot(\"a\")2@end", "@slot(\"b\")3@end", "@slot(\"b\")4@end", "@slot 5@end", "@slot 6@end"}).Draw(rt, "slotOrder")
